@@ -215,6 +215,8 @@ class Walk:
         return seg[: len(word)] == word and not (seg[len(word) :].isidentifier() or seg[len(word) :].isdigit())
 
     def mismatch(self, kind, path, detail, node):
+        if any(x.startswith("JoinedStr.") for x in path):
+            kind = "fstring/" + kind
         sig = f"ast-mismatch:{self.stage}:{kind}"
         ln = getattr(node, "lineno", None)
         if sig in self.seen:
@@ -368,6 +370,34 @@ def normalise_msg(msg):
     return msg[:70]
 
 
+def token_at(e, lines):
+    """Kind of the token the syntax error points at (keyword/operator text, NAME, NUMBER, STRING)."""
+    import re
+
+    ln, off = getattr(e, "lineno", None), getattr(e, "offset", None)
+    if not (isinstance(ln, int) and isinstance(off, int) and 0 < ln <= len(lines)):
+        return "EOF"
+    rest = lines[ln - 1][max(off - 1, 0) :]
+    m = re.match(r"[A-Za-z_]\w*", rest)
+    if m:
+        w = m.group(0)
+        if rest[len(w) : len(w) + 1] in ("'", '"') and len(w) <= 2:
+            return "STRING"
+        return w if keyword.iskeyword(w) or w in SOFT_EXPECTED or w in HARD_SCENIC else "NAME"
+    if re.match(r"\.?\d", rest):
+        return "NUMBER"
+    if rest[:1] in ("'", '"'):
+        return "STRING"
+    m = re.match(r"(\*\*=?|//=?|>>=?|<<=?|->|:=|[-+*/%@&|^<>=!]=|\.\.\.|[-+*/%@&|^~<>=()\[\]{},:.;!])", rest)
+    return m.group(0) if m else ("NEWLINE" if not rest.strip() else "OTHER")
+
+
+def at_keyword(e, lines):
+    """'@kw' if the error points at a keyword (that is informative), else ''."""
+    t = token_at(e, lines)
+    return "@" + t if t.isalpha() and t.islower() else ""
+
+
 def count_nodes(tree):
     return sum(1 for _ in ast.walk(tree))
 
@@ -399,7 +429,7 @@ def judge(src, name="<string>"):
         text = lines[ln - 1].rstrip()[:160] if isinstance(ln, int) and 0 < ln <= len(lines) else ""
         res["violations"].append(
             (
-                "rejects-valid-python:parser:" + normalise_msg(getattr(e, "msg", e)),
+                "rejects-valid-python:parser:" + normalise_msg(getattr(e, "msg", e)) + at_keyword(e, lines),
                 f"CPython compiles the program, Scenic's parser rejects it: {type(e).__name__}: {e} (line {ln}: {text!r})",
             )
         )
@@ -435,7 +465,7 @@ def judge(src, name="<string>"):
         text = lines[ln - 1].rstrip()[:160] if isinstance(ln, int) and 0 < ln <= len(lines) else ""
         res["violations"].append(
             (
-                "rejects-valid-python:compiler:" + normalise_msg(getattr(e, "msg", e)),
+                "rejects-valid-python:compiler:" + normalise_msg(getattr(e, "msg", e)) + at_keyword(e, lines),
                 f"CPython compiles the program, Scenic's compiler rejects it: {type(e).__name__}: {e} (line {ln}: {text!r})",
             )
         )
@@ -576,7 +606,9 @@ def read_source(path):
 
 
 def _pack(res, case, label, src_for_sample=None):
+    name = case.get("path") or case.get("src") or case.get("scenic") or ""
     out = {
+        "name": name if "path" in case else repr(name[:60]),
         "status": res["status"],
         "nodes": res["nodes"],
         "excused": res["excused"],
@@ -689,7 +721,7 @@ def run(ctx):
     t0 = time.time()
     jobs = G.triple_jobs(ctx.tier)
     texts = G.operator_programs(ctx.tier) + G.surface_programs(ctx.tier)
-    texts += G.soft_keyword_programs(sorted(SOFT_EXPECTED))
+    texts += G.soft_keyword_programs(sorted(SOFT_EXPECTED)) + G.rewrite_programs()
     std, site = corpus_files()
     sized = sorted(((os.path.getsize(p), p) for p in std))
     if quick:
@@ -745,7 +777,7 @@ def run(ctx):
                 excused[construct] = excused.get(construct, 0) + 1
                 ex = excused_examples.setdefault(construct, [])
                 if len(ex) < 3:
-                    ex.append(f"{o.get('path', fam)}:{line}")
+                    ex.append(f"{o.get('name', fam)}:{line}")
             for k, v in o["mismatch_counts"].items():
                 mismatch_total[k] = mismatch_total.get(k, 0) + v
             if st in ("rejected", "crashed"):
@@ -821,7 +853,7 @@ def run(ctx):
     ]
 
 
-QUICK_FILES = 150
+QUICK_FILES = 300
 
 
 def replay(ctx, case):
